@@ -63,8 +63,16 @@ def check_dispatch(idx: Index, rep: Report):
         rep.decide(subj == "mapping.upper()", rule, f, node, text=f"comparison for {k} uses mapping.upper()", what="mapping names are case-insensitive", reason=f"compares {subj}")
         if k not in adv:
             rep.info(rule, f, node, text=f"branch {k} not advertised", reason="unreachable behind the membership guard")
-    ok = any(isinstance(n, ast.If) and norm(n.test) == "mapping.upper() not in available_mappings" and isinstance(n.body[0], ast.Raise) for n in own_nodes(f.node))
-    rep.decide(ok, rule, f, f.node, text="unknown mapping refused", what="an unknown mapping name is an error", reason="membership guard changed")
+    from ..rules.guards import decide_refusals
+    from ..consteval import Opaque
+    base = {"fermion_operator": Opaque("fermion_operator"), "n_spinorbitals": 4, "n_electrons": 2, "up_then_down": False, "spin": 0}
+    cases = []
+    for k in sorted(adv):
+        for sp_ in sorted({k.lower(), k.upper(), k.capitalize()}):
+            cases.append((f"mapping '{sp_}'", dict(base, mapping=sp_), False))
+    cases.append(("mapping 'XYZ'", dict(base, mapping="XYZ"), True))
+    cases.append(("mapping '' (empty)", dict(base, mapping=""), True))
+    decide_refusals(idx, rep, rule, f, cases, what="every advertised mapping name is accepted in any letter case, anything else is an error")
     # register size provenance
     want = {"bravyi_kitaev": {"n_qubits": "n_spinorbitals"}, "jkmn": {"n_qubits": "n_spinorbitals"},
             "symmetry_conserving_bravyi_kitaev": {"fermion_operator": "fermion_operator", "n_spinorbitals": "n_spinorbitals", "n_electrons": "n_electrons",
@@ -80,8 +88,9 @@ def check_dispatch(idx: Index, rep: Report):
     rep.decide(bool(rets) and norm(rets[0].value) == "qubit_operator.terms.copy()", rule, f, rets[0] if rets else f.node, text="result re-wrapped with a copy of the terms",
                what="the returned operator does not alias the encoder's internal dictionary", reason="terms not copied")
     # scBK needs the electron number
-    ok = any(isinstance(n, ast.If) and norm(n.test) == "n_electrons is None" and isinstance(n.body[0], ast.Raise) for n in ast.walk(f.node))
-    rep.decide(ok, rule, f, f.node, text="scBK without n_electrons refused", what="the symmetry-conserving encoding needs the electron number", reason="guard missing")
+    decide_refusals(idx, rep, rule, f, [("scBK without n_electrons", dict(base, mapping="scbk", n_electrons=None), True),
+                                         ("up_then_down without n_spinorbitals", dict(base, mapping="jw", up_then_down=True, n_spinorbitals=None), True)],
+                    what="the symmetry-conserving encoding needs the electron number; re-ordering needs the register size")
     # dead guard (informational)
     for n in own_nodes(f.node):
         if isinstance(n, ast.Compare) and isinstance(n.left, ast.Attribute) and n.left.attr == "upper" and isinstance(n.ops[0], ast.In):
